@@ -43,6 +43,11 @@ def guards_ok(guards, vocab, loopkey):
         if not mentions_elem(g.key(), loopkey):
             continue
         k = g.cond.kind
+        if 'rhsof' in repr(g):
+            # the test reads what a sector's equation says right now (e.g. "its demand is still '0.0'"): a declared demander is
+            # dropped on the strength of text that later phases (exogenous values) replace
+            bad.append(repr(g))
+            continue
         if k not in vocab:
             bad.append(repr(g))
             continue
